@@ -113,6 +113,59 @@ def run(ctx):
             res.find(key, ei.loc(contains_t["sp"]), "the recursion guard compares whole instructions (type %s, which contains Expression) while each expansion step builds new expressions by substitute_variables: the set of possible keys is not finite, so membership in the trail cannot bound the recursion" % db.ty_s(elem), "`DEFCAL RX(%t) 0:\\n\\tRX(%t+1) 0` then `RX(0) 0`: every level is a new instruction RX(0+1+1+...) 0; expand_calibrations overflows the stack")
     local = mono.local_dps(parent)
     res.count("reachable_local_functions", len(local), floor=40)
+    # R3 (K7) the recursive-calibration error is never swallowed: at every call in the expansion cycle (and in the public
+    #    wrappers down to it) whose callee returns Result<_, ProgramError>, the Err outcome leads to an Err return: either the
+    #    `?` idiom (Try::branch, Break side -> from_residual) or the result itself is what the function returns / maps
+    cycle_paths = {ei.path, rei.path}
+    wrappers = [f for f in db.fns if f.path.startswith(CAL + "::") and f.name in ("expand", "expand_with_detail")] + [f for f in db.fns if f.path.startswith("quil_rs::program::Program::") and f.name in ("expand_calibrations_inner",)]
+    targets = cycle_paths | {f.path for f in wrappers}
+    nprop = 0
+    for f in [ei, rei] + wrappers:
+        for g in [f] + db.closures_of(f):
+            for bb, t, c in g.calls():
+                if not c or callee_path(c) not in targets:
+                    continue
+                nprop += 1
+                key = "K7|expansion-error-propagated|%s->%s" % (f.path.rsplit("::", 1)[-1], callee_path(c).rsplit("::", 1)[-1])
+                dest = t["dest"]["l"]
+                how = None
+                # (a) `?`: a Try::branch call on the result whose Break side reaches from_residual
+                for b2, t2, c2 in g.calls():
+                    if c2 and callee_path(c2).endswith("Try>::branch"):
+                        a0 = fn_expr_operand(g, t2["args"][0])
+                        if a0[0] == "call" and a0[1] == callee_path(c) and a0[3] == bb:
+                            how = "?"
+                # (b) the result is returned / mapped as a whole: it flows into _0 through map/and_then/map_err only
+                if how is None and dest == 0 and not t["dest"]["pr"]:
+                    how = "returned"
+                if how is None:
+                    r0 = fn_expr_operand(g, {"m": {"l": 0, "pr": []}})
+                    for alt in (r0[1] if r0[0] == "phi" else [r0]):
+                        cur = alt
+                        hops = 0
+                        while cur[0] == "call" and cur[1].rsplit("::", 1)[-1] in ("map", "and_then", "map_err") and cur[2] and hops < 4:
+                            cur = cur[2][0]
+                            hops += 1
+                        if cur[0] == "call" and cur[1] == callee_path(c) and cur[3] == bb:
+                            how = "returned"
+                # (c) an explicit match whose Err arm returns an Err
+                if how is None:
+                    for sb in range(len(g.blocks)):
+                        tt = g.blocks[sb]["t"]
+                        if tt["k"] != "switch":
+                            continue
+                        e = fn_expr_operand(g, tt["d"])
+                        if e[0] == "discr" and e[1][0] == "call" and e[1][1] == callee_path(c) and e[1][3] == bb:
+                            # Result: Ok = 0, Err = 1
+                            err_t = [x for v, x in tt["ts"] if v == "1"] or ([tt["else"]] if [v for v, x in tt["ts"]] == ["0"] else [])
+                            errs = {b3 for b3, s3 in aggregates(g) if s3["rv"]["a"]["path"] == "std::result::Result" and s3["rv"]["a"]["variant"] == "Err"}
+                            if err_t and errs and g.all_paths_pass(err_t[0], errs):
+                                how = "match"
+                res.site(key, True, {"how": how, "verdict": "ok" if how else "VIOLATION"})
+                if not how:
+                    res.find(key, g.loc(t.get("sp")), "%s calls %s but does not propagate its error (no `?`, not returned, no Err arm that returns): a RecursiveCalibration reported by the nested expansion is dropped" % (f.path.replace("quil_rs::", ""), callee_path(c).rsplit("::", 1)[-1]),
+                             "`DEFCAL X 0: X 0` then Calibrations::expand(X 0) returns Ok(..) with the instruction left in place instead of RecursiveCalibration")
+    res.count("expansion_call_sites", nprop, floor=4)
     res.explanation = "Guard dominance on the recursion cycle of calibration expansion (MIR dominators), provenance of the trail, and a finiteness argument on the guard key type (type containment against the values the step creates); %d functions are reachable from expand_calibrations." % len(local)
     res.assumptions = ["slice::contains uses PartialEq of the element type"]
     return res
